@@ -82,11 +82,14 @@ PAYLOADS = {
 SINGLE_TOP = {"One": "user", "Un": "thing", "Fr": "user", "Li": "users", "Sc": "when", "Cnt": "count", "Fav": "favourite", "Shades": "shades", "Loc": "echo", "Mu": "rename", "Su": "tick", "RootOne": "count"}
 
 ORDERS = [()]
-for _k in range(1, 4):
+# quick tier: every ordered selection of <= 3 plugins + all five in two orders; thorough tier: every ordered selection (326)
+_MAXK = 5 if os.environ.get("VERIF_C15_THOROUGH", "0") == "1" else 3
+for _k in range(1, _MAXK + 1):
     for _c in itertools.permutations("SEFNI", _k):
         ORDERS.append(_c)
-ORDERS.append(tuple("SEFNI"))
-ORDERS.append(tuple("INFES"))
+if _MAXK < 5:
+    ORDERS.append(tuple("SEFNI"))
+    ORDERS.append(tuple("INFES"))
 
 
 # package variants: 0 = all operations; 1 = only operations whose result holds scalars (no model class appears in any client
